@@ -3,6 +3,8 @@
 package pc26
 
 import (
+	"io"
+	"log"
 	"testing"
 
 	"verifharness/ev"
@@ -14,15 +16,17 @@ func TestC26(t *testing.T) {
 	r := ev.New("C26", "exploration",
 		"wire_round_trip: values (all ten kinds, depth<=3, NaN/±Inf/-0.0 by bits, times by instant incl. zoned ones), normal-form types (nested unions, lists without element type, empty objects/tuples), schemas (0-5 fields, TimeField -1..n-1, NoRetractions), records (retraction flag; zero, ordinary and extreme event times: year 0, 9999, 10000, ±2^55 s, WatermarkMaxValue), watermark messages, physical and execution variable contexts of 1-4 frames, each pushed through NativeXToProto -> proto.Marshal -> proto.Unmarshal -> ToNativeX; "+
 			"predicate_every_overload: for each of the 76 overloads of functions.FunctionMap() eight fixed calls built by the real typechecker, wrapped into a predicate; predicate_transport: random predicates (AND/OR/NOT over 1-4 targeted calls, arguments = variables of a generated two-frame schema / parser-producible constants / nested calls / COALESCE / ->field / ::cast / tuples); both sent through json.Marshal/Unmarshal three times (push-down request, its answer, materialize request) and RepopulatePhysicalExpressionFunctions, then compared node by node and evaluated before and after on 3-6 generated rows; "+
-			"unknown_function_flag: the same predicates with one call renamed or its declared signature altered (as a different build would send); plugin_vs_file: generated JSON tables and WHERE predicates of the typed SQL grammar run through the real binary once over the file and once over the test plugin serving that file (the plugin accepts and applies every pushed-down predicate). "+
+			"unknown_function_flag: the same predicates with one call renamed or its declared signature altered (as a different build would send); plugin_vs_file: generated JSON tables and WHERE predicates of the typed SQL grammar run through the real binary once over the file and once over the test plugin serving that file (the plugin accepts and applies every pushed-down predicate); plugin_vs_file_nested: the same comparison for JSON tables with a list, an object and a string column (missing keys, nulls, empty lists) under seven fixed queries with len(), indexing, ->field and COALESCE in the pushed-down WHERE. "+
 			"non-trivial: composite value/type, >=2 fields or frames, non-zero time / predicate uses a type-function overload or >=2 calls. distinct = canonical case JSON (plugin_vs_file: SQL + table)",
 		"times need only come back as the same instant (zone and monotonic reading are not read by anything behind the wire); nil and empty slices are the same",
 		"predicate constants are those the SQL parser can produce (Int, finite Float, String, Boolean, NULL, Duration); now() is only compared with instants far from the present (two evaluations differ)",
 		"each RepopulatePhysicalExpressionFunctions call builds a new function map whose three regexp caches (0.8 MB, 6 goroutines) are never released, which bounds the number of predicate cases per process",
 		"a Go panic while evaluating counts as an error of that side (crashes are C07's subject)")
+	log.SetOutput(io.Discard) // octosql's functions log every unparsable input
 	ev.Check(t, r, "wire_round_trip", ev.N(300000, 6000000), genRT, rtProp)
 	ev.Enumerate(t, r, "predicate_every_overload", enumPred, predTransportProp(r))
-	ev.Check(t, r, "predicate_transport", ev.N(6400, 24000), genPred, predTransportProp(r))
-	ev.Check(t, r, "unknown_function_flag", ev.N(1600, 6000), genMutated, unknownFlagProp(r))
-	ev.Check(t, r, "plugin_vs_file", ev.N(288, 5000), genE2E, e2eProp(r))
+	ev.Check(t, r, "predicate_transport", ev.N(9600, 96000), genPred, predTransportProp(r))
+	ev.Check(t, r, "unknown_function_flag", ev.N(2400, 24000), genMutated, unknownFlagProp(r))
+	ev.Check(t, r, "plugin_vs_file", ev.N(176, 5000), genE2E, e2eProp(r))
+	ev.Check(t, r, "plugin_vs_file_nested", ev.N(32, 1000), genNested, nestedProp(r))
 }
